@@ -491,9 +491,13 @@ Theorem server_in_domain_ok path r doc :
 Proof.
   unfold server_in_domain. intros H. apply andb_true_iff in H. destruct H as [Hv Hb].
   apply andb_true_iff in Hv. destruct Hv as [Hv Hfit].
-  apply variant_b_lexvar in Hb. split.
-  - now apply (server_denotes href_fmt).
-  - now apply (rfc_read_lex href_fmt).
+  apply orb_true_iff in Hb. destruct Hb as [Hb|Hb].
+  - apply variant_b_lexvar in Hb. split.
+    + now apply (server_denotes href_fmt).
+    + now apply (rfc_read_lex href_fmt).
+  - apply andb_true_iff in Hb. destruct Hb as [Hw Hb]. apply variant_b_lexvar_nc in Hb. split.
+    + now apply (server_denotes_nc href_fmt).
+    + now apply (rfc_read_lex_nc href_fmt).
 Qed.
 
 (** model ⊑ specification, in the form of DESIGN.md section 5 *)
